@@ -383,27 +383,40 @@ class Harness:
     def src(self):
         return '\n'.join(self.lines)
 
-    def monomorphise(self, types, bound='<S: BaseNum>', kinds=('value', 'post')):
-        """re-instantiate every root with the given generic bound at concrete scalar types (same specs):
-        the parametricity argument is cross-checked by letting rustc select the impls for real types"""
+    def monomorphise(self, types, bound='<S: BaseNum>', kinds=('value', 'post'), method_syntax=False, soft=False):
+        """re-instantiate every root with the given generic bound at concrete scalar types (same specs): rustc selects the
+        impls a user of that type really gets.  With method_syntax the call is also respelled `a.method(..)`, the way user
+        code is written, so that an inherent method on one concrete type that shadows the trait method is seen.
+        soft roots are extras: one that does not compile (ambiguous method call) is dropped silently."""
         import re
         added = []
+        self.soft = getattr(self, 'soft', set())
         for line in list(self.lines):
-            m = re.match(r'pub fn (\w+)(<[^(]*>)(\(.*)$', line)
+            m = re.match(r'pub fn (\w+)(<[^(]*>)(\(.*?\)(?: -> .*?)?) \{ (.*) \}$', line)
             if not m or m.group(2) != bound:
                 continue
             name = m.group(1)
             spec, kw = self.specs[name]
-            if spec[0] not in kinds:
+            if kinds is not None and spec[0] not in kinds:
                 continue
+            sig, body = m.group(3), m.group(4)
+            variants = [('', body)]
+            if method_syntax:
+                mm = re.match(r'^(?:[A-Z]\w*(?:::<[^()]*>)?)::(\w+)\(a(?:, (.*))?\)$', body)
+                if mm:
+                    variants.append(('_m', 'a.%s(%s)' % (mm.group(1), mm.group(2) or '')))
             for ty in types:
-                rest = re.sub(r'\bS\b', ty, m.group(3))
-                n2 = '%s__%s' % (name, ty)
-                self.lines.append('pub fn %s%s' % (n2, rest))
-                kw2 = dict(kw)
-                kw2['allow_panics'] = 'arith'
-                self.specs[n2] = (spec, kw2)
-                added.append(n2)
+                for vs, vb in variants:
+                    if vs == '' and method_syntax == 'only':
+                        continue
+                    n2 = '%s__%s%s' % (name, ty, vs)
+                    self.lines.append('pub fn %s%s { %s }' % (n2, re.sub(r'\bS\b', ty, sig), re.sub(r'\bS\b', ty, vb)))
+                    kw2 = dict(kw)
+                    kw2['allow_panics'] = 'arith'
+                    self.specs[n2] = (spec, kw2)
+                    added.append(n2)
+                    if soft:
+                        self.soft.add(n2)
         return added
 
 
@@ -608,8 +621,13 @@ def _run_one(run, S, name, spec, kw, custom):
             raise KeyError(kind)
 
 
-def report_dropped(run, meta):
+def report_dropped(run, meta, h=None):
+    soft = getattr(h, 'soft', set()) if h is not None else set()
     for w, msg in meta.get('dropped', {}).items():
+        if w in soft:
+            if h is not None and w in h.specs:
+                del h.specs[w]
+            continue
         run.ob('%s:%s:api-missing' % (run.prop, w), False, rule='api-present', expected='harness wrapper compiles against the current API', found=msg)
 
 
